@@ -814,6 +814,8 @@ func c02Standalone(c *Ctx) {
 }
 
 var c02Canaries = []Canary{
+	{Name: "r7-truncate-to-announced-size", ExpectKey: "C02.R3#download:temp-file-only-truncated-to-zero", Edits: []Edit{{File: "tq/ssh.go", Find: "\t}\n\n\tdlfilename := f.Name()\n\t// Wrap callback to give name context\n\tccb := func(totalSize int64, readSoFar int64, readSinceLast int) error {\n\t\tif cb != nil {\n", Repl: "\t}\n\n\tdlfilename := f.Name()\n\t// Size the temporary file up front to what the server announced, so that\n\t// a full disk or an exceeded quota is noticed before any data is moved\n\t// and the file is laid out in one piece.\n\tif err := f.Truncate(actualSize); err != nil {\n\t\tio.Copy(io.Discard, data)\n\t\treturn errors.Wrap(err, tr.Tr.Get(\"cannot write data to temporary file %q\", dlfilename))\n\t}\n\n\t// Wrap callback to give name context\n\tccb := func(totalSize int64, readSoFar int64, readSinceLast int) error {\n\t\tif cb != nil {\n"}}},
+	{Name: "r7-path-from-batch-response", ExpectKey: "C02.R1#newTransfer:path-is-the-callers", Edits: []Edit{{File: "tq/transfer.go", Find: "// newTransfer returns a copy of the given Transfer, with the name and path\n// values set.\nfunc newTransfer(tr *Transfer, name string, path string) *Transfer {\n\tt := &Transfer{\n\t\tName:          name,\n\t\tPath:          path,\n", Repl: "// newTransfer returns a copy of the given Transfer, with the name and path\n// values set.\nfunc newTransfer(tr *Transfer, name string, path string) *Transfer {\n\t// Transfers synthesised for a standalone transfer agent already carry\n\t// their local path, so only fill it in when the batch did not.\n\tif len(tr.Path) > 0 {\n\t\tpath = tr.Path\n\t}\n\n\tt := &Transfer{\n\t\tName:          name,\n\t\tPath:          path,\n"}}},
 	{Name: "r6-failure-lost-after-cleanup", ExpectKey: "C02.R2#DoTransfer:failure-returned-after-cleanup", Edits: []Edit{{File: "tq/basic_download.go", Find: "\tif err != nil {\n\t\tf.Close()\n\t\t// Rename file so next download can resume from where we stopped.\n\t\t// No error checking here, if rename fails then file will be deleted and there just will be no download resuming\n\t\ttools.RobustRename(f.Name(), a.downloadFilename(t))\n\t}\n\n\treturn err\n", Repl: "\tif err != nil {\n\t\tf.Close()\n\t\t// Rename file so next download can resume from where we stopped.\n\t\t// If rename fails then file will be deleted and there just will be no download resuming\n\t\tif err = tools.RobustRename(f.Name(), a.downloadFilename(t)); err != nil {\n\t\t\ttracerx.Printf(\"xfer: unable to keep partial download of %q for resuming: %v\", t.Oid, err)\n\t\t}\n\t}\n\n\treturn err\n"}}},
 	{Name: "r5-hard-link-in-adapter", ExpectKey: "C02.R7", Edits: []Edit{{File: "tq/basic_download.go", Find: "\ttools.RobustRename(a.downloadFilename(t), f.Name())", Repl: "\tif err := os.Link(a.downloadFilename(t), f.Name()); err != nil {\n\t\ttools.RobustRename(a.downloadFilename(t), f.Name())\n\t}"}}},
 	{Name: "basic-drop-hash-test", ExpectKey: "C02.R1#publish:(*tq.basicDownloadAdapter).download", Edits: []Edit{{File: "tq/basic_download.go", Find: "	if actual := hasher.Hash(); actual != t.Oid {\n		return errors.New(", Repl: "	if actual := hasher.Hash(); actual != t.Oid && written < 0 {\n		return errors.New("}}},
